@@ -499,4 +499,24 @@ def catalogue():
     for n in (0, 1, 3):
         for rt in ("n", "u"):
             S.append(subcall(n, rt))
+
+    def subcall_byref(kind):
+        """By-reference arguments: the callee receives the *index* of the caller's variable.
+        ScratchVar -> its slot number; DynamicScratchVar -> the index it currently holds (so a forwarded reference stays a reference)."""
+        def build(env, v, mode):
+            ns = {"pt": pt}
+            exec(compile("def g(x: pt.ScratchVar, y):\n    return pt.Seq()\n", "<g>", "exec", dont_inherit=True), ns)
+            fw = pt.Subroutine(pt.TealType.none)(ns["g"])
+            c, cc = env.child("u")
+            if kind == "scratchvar":
+                var = pt.ScratchVar(pt.TealType.uint64)
+                first = OP("int", var.slot)
+            else:
+                var = pt.DynamicScratchVar(pt.TealType.uint64)
+                first = OP("load", var.slot)
+            call = fw(var, c)
+            return {"expr": call, "term": SEQ(first, C(cc), OP("callsub", fw.subroutine)), "expect_error": lambda v, m: v < 4}
+        return Scenario(f"SubroutineCall/by-ref/{kind}", "SubroutineCall", build, versions=[4, 5, 8, 10], modes=["Application"])
+    S.append(subcall_byref("scratchvar"))
+    S.append(subcall_byref("dynamic"))
     return S
